@@ -134,6 +134,7 @@ func scQueue(r *Run) {
 	finished := 0
 	deadline := time.After(10 * time.Second)
 	closed := false
+	closeReturned := make(chan struct{})
 wait:
 	for finished < nG {
 		select {
@@ -152,6 +153,7 @@ wait:
 					}
 					id := h.Invoke(99, qClose, 0)
 					h.Return(id, 0, classify(q.Close()))
+					close(closeReturned)
 				})
 				deadline = time.After(30 * time.Second)
 				continue
@@ -182,6 +184,16 @@ wait:
 	// post-condition: once Close has completed and every deadline of the program has long expired, a
 	// receive on the closed queue returns what is still queued and then end-of-stream (not a timeout)
 	if finished == nG && closed {
+		// (the harness's own Close may still be inside a yield stall; the post-condition is about a Close that
+		// has returned)
+		select {
+		case <-closeReturned:
+		case <-time.After(2 * time.Minute):
+			r.NoLeakCheck = true
+			r.Violate("C17/queue-call-never-returns", "Close, called when every program had finished, has not returned after 2 simulated minutes; goroutines:\n  %s", BlockedSummary())
+			return
+		}
+		time.Sleep(time.Second)
 		for k := 0; k < 16; k++ {
 			id := h.Invoke(97, qRecv, 0)
 			var v int64
